@@ -42,7 +42,7 @@ void add_forced(Case& c, Rng& r, const model::Params& p) {
       c.set("oa", (int64_t)r.below(p.T + 1));
     }
   } else {
-    static const std::vector<std::string> specs = {"max", "first", "last", "spread", "ends", "rand"};
+    static const std::vector<std::string> specs = {"max", "first", "last", "spread", "ends", "rand", "edge", "edge"};
     static const std::vector<std::string> pars = {"rand", "last", "cyc", "0", "15", "7"};
     c.set("och", r.pick(specs));
     c.set("opar", r.pick(pars));
@@ -211,6 +211,16 @@ void gen_c03(Plan& p, bool thorough) {
       c.set("cap", "frac500"); // a failing sign (short buffer)
     }
     p.tasks[0].push_back(c);
+  }
+  // challenge patterns the hash reaches with negligible probability: the programmable oracle drives signer and model to
+  // the same extreme challenge (clustered / spread / boundary opened sets, every hidden-party rule, all-equal ZKB++ vectors)
+  if (COST[prim] <= 6 || thorough || model::params(prim)->kkw || (p.run / 12) % 3 == 0) {
+    Rng ro = rng_for(p.seed, {H("C03"), p.run, H("forced")});
+    Case f = sign_case(ro, prim, "c03");
+    add_forced(f, ro, *model::params(prim));
+    if (model::params(prim)->kkw && ro.chance(1, 2)) // the ragged right edge of the seed / Merkle trees, every subset over time
+      f.set("och", "edge").set("oedge", (int64_t)((p.run / 12 + p.seed) % 62));
+    p.tasks[0].push_back(f);
   }
   // the same input again, elsewhere
   for (int i = 0; i < 2; i++) {
@@ -625,6 +635,13 @@ void gen_c13(Plan& p, bool thorough) {
     c.set("oshuffle", (int64_t)ro.below(2));
     p.tasks[0].push_back(c);
   }
+  if (pp.kkw) // every subset of the last six leaves (single-child nodes, missing siblings) against the size model: no model signature needed
+    for (int i = 0; i < 6; i++) {
+      Rng ro = rng_for(p.seed, {H("C13"), p.run, H("edge"), (uint64_t)i});
+      Case e = sign_case(ro, prim, "c13");
+      e.set("och", "edge").set("oedge", (int64_t)((p.run / 12 * 6 + i + p.seed) % 62)).setu("oseed", ro.next() >> 20).set("opar", ro.chance(1, 2) ? "rand" : "cyc").set("cap", "max").set("place", "edge");
+      p.tasks[0].push_back(e);
+    }
   // hash-derived challenges as well: exact-size buffer at the guard page
   Case c = sign_case(r, prim, "c13");
   c.set("cap", "max").set("place", "edge");
